@@ -178,6 +178,8 @@ class Interp:
             if isinstance(st, ast.Return):
                 raise _Return(self.ev(st.value, env) if st.value is not None else None)
             if isinstance(st, ast.Raise):
+                if st.exc is None and '__active_exc__' in env:
+                    raise env['__active_exc__']
                 raise Raised(ast.unparse(st)[:100])
             if isinstance(st, ast.If):
                 self.run(st.body if self.truth(self.ev(st.test, env)) else st.orelse, env)
@@ -206,13 +208,32 @@ class Interp:
                 continue
             if isinstance(st, ast.Pass):
                 continue
+            if isinstance(st, ast.Delete):
+                for t in st.targets:
+                    if isinstance(t, ast.Subscript):
+                        o = self.ev(t.value, env)
+                        k = self.ev(t.slice, env) if not isinstance(t.slice, ast.Slice) else slice(
+                            self.ev(t.slice.lower, env) if t.slice.lower else None,
+                            self.ev(t.slice.upper, env) if t.slice.upper else None,
+                            self.ev(t.slice.step, env) if t.slice.step else None)
+                        try:
+                            del o[k]
+                        except (KeyError, IndexError) as err:
+                            raise Raised(f'{type(err).__name__} {k!r}')
+                    elif isinstance(t, ast.Name):
+                        env.pop(t.id, None)
+                    elif isinstance(t, ast.Attribute):
+                        delattr(self.ev(t.value, env), t.attr)
+                    else:
+                        raise self.fail(f'del `{ast.unparse(t)}`')
+                continue
             if isinstance(st, ast.Break):
                 raise _Break()
             if isinstance(st, ast.Continue):
                 raise _Continue()
             if isinstance(st, ast.For):
                 it = self.ev(st.iter, env)
-                if not isinstance(it, (tuple, list, dict, set, frozenset, str, range, type({}.items()), type({}.keys()), type({}.values()), zip, enumerate)) and not hasattr(it, '__mock_iter__'):
+                if not isinstance(it, (tuple, list, dict, set, frozenset, str, range, type({}.items()), type({}.keys()), type({}.values()), zip, enumerate)) and not hasattr(it, '__mock_iter__') and not hasattr(it, '__next__'):
                     raise self.fail(f'loop over non-concrete value {it!r}')
                 seq = list(it.__mock_iter__()) if hasattr(it, '__mock_iter__') else list(it)
                 if len(seq) > 64:
@@ -250,11 +271,19 @@ class Interp:
             if isinstance(st, ast.Try):
                 try:
                     self.run(st.body, env)
-                except Raised as r:
+                except (Raised, StopIteration, KeyError, IndexError, AttributeError, ValueError, TypeError, ZeroDivisionError) as r:
+                    text = r.text if isinstance(r, Raised) else type(r).__name__
+                    parents = {'KeyError': ('LookupError',), 'IndexError': ('LookupError',)}.get(text, ())
                     for h in st.handlers:
                         names = [] if h.type is None else [ast.unparse(x) for x in (h.type.elts if isinstance(h.type, ast.Tuple) else [h.type])]
-                        if h.type is None or any(r.text.startswith(n) or n in ('Exception', 'BaseException') for n in names):
-                            self.run(h.body, env)
+                        if h.type is None or any(text.startswith(n) or n in ('Exception', 'BaseException') or n in parents for n in names):
+                            if h.name:
+                                env[h.name] = r
+                            env['__active_exc__'] = r if isinstance(r, Raised) else Raised(text)
+                            try:
+                                self.run(h.body, env)
+                            finally:
+                                env.pop('__active_exc__', None)
                             break
                     else:
                         raise
@@ -276,7 +305,10 @@ class Interp:
         elif isinstance(t, ast.Attribute):
             setattr(self.ev(t.value, env), t.attr, v)
         elif isinstance(t, ast.Subscript):
-            self.ev(t.value, env)[self.ev(t.slice, env)] = v
+            try:
+                self.ev(t.value, env)[self.ev(t.slice, env)] = v
+            except (IndexError, KeyError, ValueError) as err:
+                raise Raised(f'{type(err).__name__}: {err}')
         else:
             raise self.fail(f'assignment target `{ast.unparse(t)}`')
 
@@ -425,7 +457,17 @@ class Interp:
                     d[self.ev(k, env)] = self.ev(v, env)
             return d
         if isinstance(e, ast.JoinedStr):
-            return '<fstring>'
+            parts = []
+            for v in e.values:
+                if isinstance(v, ast.Constant):
+                    parts.append(str(v.value))
+                elif isinstance(v, ast.FormattedValue):
+                    try:
+                        x = self.ev(v.value, env)
+                        parts.append(repr(x) if v.conversion == ord('r') else str(x))
+                    except Unsupported:
+                        parts.append('<?>')
+            return ''.join(parts)
         if isinstance(e, (ast.GeneratorExp, ast.ListComp, ast.SetComp)):
             out = []
             self._comp(e.generators, 0, dict(env), lambda env2: out.append(self.ev(e.elt, env2)))
